@@ -261,7 +261,14 @@ pub fn run(a: &Args, m: &mut Mon) {
             0 => 1,
             1..=7 => r.usize(2, 8),
             8..=10 => r.usize(9, 64),
-            _ => r.usize(65, 300),
+            _ => {
+                if k % 40 == 7 {
+                    m.count("very_long_functions");
+                    r.usize(1000, 6000)
+                } else {
+                    r.usize(65, 300)
+                }
+            }
         };
         let (ends, _c) = gen_ends_any(&mut r, n);
         if ends.len() == 1 {
